@@ -68,7 +68,7 @@ TImpulse ==
                 /\ ema' = ema
        ELSE IF kind \in FIR
        THEN LET p == Profile(kind, n, E.j)
-            IN  /\ Near(FxMulInt(Fx(E.y), p.den), FxFromInt(p.num), FxMulInt(Allow(4 * n + 16, 8, E.j + 1, FxOne), p.den))
+            IN  /\ Near(FxMulInt(Fx(E.y), p.den), FxFromInt(p.num), FxMulInt(Allow(4 * n + 16, 8, E.j + 1 + t, FxOne), p.den))
                 /\ ema' = ema
        ELSE LET al == Alpha(kind, n)
                 x  == IF E.j = 0 THEN FxOne ELSE FxZero
@@ -83,7 +83,13 @@ TImpulse ==
                 /\ ema' = <<e1, e2, e3>>
     /\ UNCHANGED <<law, kind, n, a, b, t, M, lo, hi, ws>>
 
-Next == l <= Len(Rec) /\ (TNew \/ TStep \/ TImpulse) /\ l' = l + 1
+\* a late impulse: the instance (started at 0) is first fed zeros -- the output stays 0 -- so that the unit input arrives
+\* at an arbitrary position of the stream (time invariance of the weight profile; t counts the quiet steps)
+TQuiet == /\ E.ev = "impulse_pre"
+          /\ law = "impulse" /\ FxIsZero(Fx(E.y))
+          /\ t' = t + 1 /\ UNCHANGED <<law, kind, n, a, b, M, lo, hi, ema, ws>>
+
+Next == l <= Len(Rec) /\ (TNew \/ TStep \/ TImpulse \/ TQuiet) /\ l' = l + 1
 Spec == Init /\ [][Next]_vars
 
 \* reaching the end of the trace ends the search at once (reported by TLC as a violation of NotDone = accepted);
